@@ -12,6 +12,7 @@ regenerated on every run from /repo's working tree by
 Template language (a `.vt.rs` file is Rust text with directive lines starting with `//@`):
 
   //@include <path relative to /verif>
+  //@body   (inside an extract block: ghost text inserted right after the opening brace of the function body)
   //@extract file=<repo-relative path> [impl=<substring of impl header>] fn=<name> [as=<label>]
   //@extract file=... const=<NAME> | macro=<name> | struct=<Name> | enum=<Name>
       directive lines that may follow an `//@extract ... fn=`:
@@ -591,6 +592,9 @@ def splice_fn(item, directives, log, probe=False):
                   raise AnchorLost(f"{item.name}: `in` of for-loop {k} not found")
               inserts.append((m.end(), order, d["ident"] + ": ")); order += 1
               log.append(f"R3 {item.name}: for-loop {k} iterator named `{d['ident']}`")
+          elif op == "body":
+              # right after the opening brace of the function body: survives any edit of the first statement
+              inserts.append((bo + 1, order + 1000, "\n" + d["text"])); order += 1
           elif op == "before":
               a, b, ln = find_line(d["rx"], d["n"])
               inserts.append((a, order, d["text"] + "\n")); order += 1
@@ -691,7 +695,7 @@ def build_unit(template_path, repo, verif_root, probe=False):
                 closed = False
                 def _has_dirs(k):
                     mm = _dir.match(lines[k]) if k < len(lines) else None
-                    return bool(mm) and mm.group(1).rstrip("?") in ("sig", "loop", "forname", "before", "after", "subst", "noresname", "attr", "lowerguards", "end")
+                    return bool(mm) and mm.group(1).rstrip("?") in ("sig", "loop", "forname", "before", "after", "subst", "noresname", "attr", "lowerguards", "body", "end")
                 while (kind == "fn" or _has_dirs(i) or dirs) and i < len(lines):
                     m2 = _dir.match(lines[i])
                     if m2:
@@ -717,6 +721,8 @@ def build_unit(template_path, repo, verif_root, probe=False):
                             n = mm.group(4) or "1"
                             cur = {"op": "subst", "rx": mm.group(1), "repl": mm.group(2),
                                    "n": "all" if n == "all" else int(n), "text": ""}
+                        elif op2 == "body":
+                            cur = {"op": "body", "text": ""}
                         elif op2 == "lowerguards":
                             mm = re.match(r"/(.*)/\s*(#(\d+))?$", rest2)
                             cur = {"op": "lowerguards", "rx": mm.group(1), "n": int(mm.group(3) or 1), "text": ""}
